@@ -55,6 +55,12 @@ func run(c *Ctx) {
 			c.Hist("members", fmt.Sprintf("%d", len(v.Members)/4*4))
 		}
 		monitorLayout(c, cs, o)
+		if cs.Pre != nil {
+			c.Hist("filtered_event_before", progs.PreludeModes[cs.Pre.Mode])
+			if o.PreWrites > 0 {
+				c.Note("a filtered event (%s) was written: %q", progs.PreludeModes[cs.Pre.Mode], o.PreLines[0])
+			}
+		}
 		c.Count(term, nontrivial)
 		c.Hist("steps", fmt.Sprintf("%d", len(cs.Steps)))
 		c.Hist("written", fmt.Sprint(o.Written))
@@ -96,6 +102,8 @@ func run(c *Ctx) {
 		}
 	}
 	switch c.Prop {
+	case "C01":
+		runC01(c, emit)
 	case "C02":
 		n /= 3
 		runC02(c, emit)
@@ -105,7 +113,98 @@ func run(c *Ctx) {
 	}
 	for i := 0; i < n; i++ {
 		g := &progs.Gen{R: c.R.Fork()}
-		emit(g.GenCase(3))
+		cs := g.GenCase(3)
+		// (drawn after the case itself, so the programs are those of earlier runs)
+		if g.R.Chance(15) {
+			// a filtered event on the same logger first: it must leave nothing behind (pooled arrays / dicts it was given)
+			cs.Pre = &progs.Prelude{Mode: g.R.Intn(len(progs.PreludeModes)), Ops: g.GenOps(2, 4), Reps: 1 + g.R.Intn(2), Fin: g.R.Intn(4)}
+		}
+		if g.R.Chance(15) {
+			// Context.Caller() / CallerWithSkipFrameCount(k) register hooks like Timestamp() does
+			for k := 1 + g.R.Intn(2); k > 0 && len(cs.Steps) > 0; k-- {
+				insertCaller(&cs.Steps[g.R.Intn(len(cs.Steps))], g.R)
+			}
+		}
+		emit(cs)
+	}
+}
+
+var callerSkips = []int{progs.CallerGlobal, progs.CallerGlobal, 0, 1, 2, progs.CallerBeyond}
+
+// insertCaller puts a caller cop among the context calls of a With() step (before its Hook() calls)
+func insertCaller(st *progs.Step, r *Rng) {
+	if st.Update {
+		return
+	}
+	idx := len(st.Cops)
+	for i, co := range st.Cops {
+		if co.K == "hook" {
+			idx = i
+			break
+		}
+	}
+	at := r.Intn(idx + 1)
+	cops := append([]progs.Cop{}, st.Cops[:at]...)
+	cops = append(cops, progs.CallerCop(callerSkips[r.Intn(len(callerSkips))]))
+	st.Cops = append(cops, st.Cops[at:]...)
+}
+
+// fieldsPrim: how a value given to Fields() is taken by its type switch (strings and []string have their own
+// cases, everything else the sweep builds goes to the default case = InterfaceMarshalFunc)
+func fieldsPrim(v interface{}) *progs.Prim {
+	switch x := v.(type) {
+	case string:
+		return &progs.Prim{M: "Str", V: x}
+	case []string:
+		return &progs.Prim{M: "Strs", V: x}
+	}
+	return &progs.Prim{M: "Interface", V: v}
+}
+
+// C01 directed: every byte class and every escape look-alike (text that is itself encoder output: a backslash
+// followed by u003c, n, a quote, ...) inside a value that goes through the reflection marshaler, in every position
+// such a value has (plain string, struct field, behind a pointer, slice element, map key, map value), through
+// every call that ends in InterfaceMarshalFunc: Interface, Any, Array.Interface, inside Dict, Fields (slice and
+// map, default case), an error whose ErrorMarshalFunc result is such a value, Context.Interface.
+func runC01(c *Ctx, emit func(cs *progs.Case) progs.Obs) {
+	type tx struct {
+		b         []byte
+		lookalike bool
+	}
+	var texts []tx
+	for _, b := range progs.EscapeLookalikes() {
+		texts = append(texts, tx{b, true})
+		texts = append(texts, tx{append(append([]byte(`{"html":"`), b...), []byte(`b>"}`)...), true}) // embedded, as in a logged JSON body
+	}
+	for _, b := range progs.ByteClasses() {
+		texts = append(texts, tx{b, false})
+	}
+	k := 0
+	for _, t := range texts {
+		for si, sh := range progs.IfaceShapes {
+			k++
+			if !t.lookalike && !c.Thorough() && (k+si)%4 != 0 {
+				continue // quick tier: the plain byte classes visit the shapes in rotation
+			}
+			v := sh.Mk(string(t.b))
+			ip, ap := progs.Prim{M: "Interface", V: v}, progs.Prim{M: "Any", V: v}
+			cs := &progs.Case{S: progs.DefaultSettings(), Level: 1, Msg: []byte("m")}
+			cs.Ops = []progs.Op{
+				{K: "key", Key: []byte("i"), P: &ip},
+				{K: "key", Key: []byte("any"), P: &ap},
+				{K: "array", Key: []byte("arr"), Sub: []progs.Op{{K: "aelem", P: &ip}}},
+				{K: "dict", Key: []byte("d"), Sub: []progs.Op{{K: "key", Key: []byte("i"), P: &ip}}},
+				{K: "fields", KVs: []progs.FieldKV{{Key: []byte("fs"), K: "prim", P: fieldsPrim(v)}}},
+				{K: "fields", Via: true, KVs: []progs.FieldKV{{Key: []byte("fm"), K: "prim", P: fieldsPrim(v)}}},
+			}
+			if _, isStr := v.(string); !isStr {
+				cs.Ops = append(cs.Ops, progs.Op{K: "anerr", Key: []byte("e"), E: &progs.ErrV{K: "iface", V: v}})
+			}
+			co := progs.Op{K: "key", Key: []byte("ci"), P: &ip}
+			cs.Steps = []progs.Step{{Cops: []progs.Cop{{K: "op", O: &co}}}}
+			emit(cs)
+			c.Hist("c01_iface_shape", sh.Name)
+		}
 	}
 }
 
@@ -125,6 +224,23 @@ func monitorLayout(c *Ctx, cs *progs.Case, o progs.Obs) {
 	set := map[uint64]bool{}
 	for _, id := range want {
 		set[id] = true
+	}
+	// an event that is not enabled (below the logger's or the global level, rejected by the sampler, started with
+	// WithLevel(Disabled)) invokes no hook
+	for _, m := range o.PreMarks {
+		if set[m] {
+			c.Violate(Violation{Key: "hook-ran-for-filtered-event", Monitor: "hooks-once", Desc: fmt.Sprintf("a hook of the logger ran for an event that is not enabled (%s): marks %v", progs.PreludeModes[cs.Pre.Mode], o.PreMarks), Case: cs.Describe(), Observed: o.PreMarks})
+			break
+		}
+	}
+	if cs.Level == 7 {
+		for _, m := range o.Marks {
+			if set[m] {
+				c.Violate(Violation{Key: "hook-ran-for-filtered-event", Monitor: "hooks-once", Desc: fmt.Sprintf("a hook of the logger ran for an event started with WithLevel(Disabled): marks %v", o.Marks), Case: cs.Describe(), Observed: o.Marks})
+				break
+			}
+		}
+		return
 	}
 	var got []uint64
 	for _, m := range o.Marks {
